@@ -233,6 +233,13 @@ def key_material(ctx, report):
         return None
     groups = dispatch(fe, group_of)
     sizes = dispatch(fd, raw_size)
+    evaluated = key_material_by_evaluation(ctx, c, fe, fd, spec)
+    if evaluated is not None:
+        # the two key parsers evaluated per algorithm: the curve handed to the key object and the byte counts read
+        groups, coord_sizes, sizes = evaluated
+    else:
+        coord_sizes = {}
+        report.undecided.append('C08.R4: the DNSKEY key parsers left the subset the evaluation understands; decided on their syntax')
     for alg, want in spec.items():
         report.count('C08.R4')
         if 'coordinate_bytes' in want:
@@ -241,6 +248,8 @@ def key_material(ctx, report):
                 report.add('C08.R4', fe.construct + '@algorithm[%s]' % alg, 'algorithm %s is not handled' % alg)
                 continue
             size = ng.enum_members[g].get('size') if ng is not None and g in (ng.enum_members or {}) else None
+            if alg in coord_sizes:
+                size = coord_sizes[alg] * 8
             if g not in want['curves']:
                 report.add('C08.R4', fe.construct + '@curve[%s]' % alg, '%s keys are parsed as curve %s; %s' % (alg, g, want['ref']))
             if size is not None and size // 8 != want['coordinate_bytes']:
@@ -250,6 +259,71 @@ def key_material(ctx, report):
             if got != want['key_bytes']:
                 report.add('C08.R4', fd.construct + '@size[%s]' % alg, '%s public key is read with %s bytes; %s' % (alg, got, want['ref']))
         report.sample({'rule': 'C08.R4', 'algorithm': alg, 'ref': want['ref'], 'code': groups.get(alg) or sizes.get(alg)})
+
+
+def key_material_by_evaluation(ctx, c, fe, fd, spec):
+    """_parse_public_key_ecdsa / _parse_public_key_eddsa evaluated (sa.miniexec) for every algorithm of the table with a
+    recording key parser and a recording key constructor: returns ({algorithm: curve handed to the key parameters},
+    {algorithm: bytes read per coordinate}, {algorithm: bytes read for an EdDSA key}) or None when not evaluable"""
+    from ..miniexec import Evaluator, EnumVal, Native, Obj, Raised, Unsupported, class_call_hook
+    alg_cls = ctx.model.try_cls('DnsSecAlgorithm')
+    if alg_cls is None or not alg_cls.enum_members:
+        return None
+
+    class KeyParser(Native):
+        def __init__(self):
+            self.reads = []
+            self.values = {}
+
+        def parse_mpint(self, name, size, *a, **k):
+            self.reads.append(('mpint', name, size))
+            self.values[name] = 1
+
+        def parse_raw(self, name, size):
+            self.reads.append(('raw', name, size))
+            self.values[name] = b'\x01' * (size if isinstance(size, int) and 0 <= size < 4096 else 0)
+
+        def __getitem__(self, name):
+            return self.values[name]
+    made = {}
+
+    def extra(n, ev):
+        d = ast.unparse(n.func)
+        if d in ('PublicKeyParamsEcdsa', 'PublicKeyParamsEddsa'):
+            kw = {k.arg: ev.ev(k.value) for k in n.keywords if k.arg}
+            made['params'] = kw
+            return Obj(**kw)
+        if d == 'PublicKey.from_params':
+            return Obj(params=ev.ev(n.args[0]))
+        return NotImplemented
+    hook = class_call_hook(c, extra, ctx.model)
+    groups, coords, sizes = {}, {}, {}
+    try:
+        for alg, want in spec.items():
+            if alg not in alg_cls.enum_members:
+                continue
+            f = fe if 'coordinate_bytes' in want else fd
+            params = [a.arg for a in f.node.args.args if a.arg not in ('self', 'cls')]
+            kp = KeyParser()
+            made.clear()
+            try:
+                Evaluator(dict(zip(params, [EnumVal.of(alg_cls, alg), kp])), hook, None).function(f.node)
+            except Raised:
+                continue            # not handled: reported by the caller as such
+            curve = next((v for k, v in made.get('params', {}).items() if isinstance(v, EnumVal)), None)
+            if 'coordinate_bytes' in want:
+                groups[alg] = curve.name if curve is not None else None
+                ms = [r[2] for r in kp.reads if r[0] == 'mpint']
+                if ms and all(isinstance(x, int) for x in ms) and len(set(ms)) == 1 and len(ms) == 2:
+                    coords[alg] = ms[0]
+                elif ms:
+                    coords[alg] = -1
+            else:
+                raws = [r[2] for r in kp.reads if r[0] == 'raw']
+                sizes[alg] = raws[0] if len(raws) == 1 else None
+    except Unsupported:
+        return None
+    return groups, coords, sizes
 
 
 def rsa_exponent_length(ctx, report):
